@@ -215,6 +215,15 @@ def TieFree (toks : List (Nat × Str)) : Prop :=
     p.1 = q.1 → kp.label = kq.label → kp.after = true → kq.after = true →
     kp.before ≠ .dots → kq.before ≠ .dots → (kp.before = .minus ↔ kq.before = .minus)
 
+/-- Executable form of `TieFree`. -/
+def tieFreeB (toks : List (Nat × Str)) : Bool :=
+  toks.all fun p => toks.all fun q =>
+    match classify p.2, classify q.2 with
+    | some kp, some kq =>
+      !(p.1 == q.1 && kp.label == kq.label && kp.after && kq.after && kp.before != .dots && kq.before != .dots) ||
+        ((kp.before == .minus) == (kq.before == .minus))
+    | _, _ => true
+
 /-- The numbered hint tokens of a text. -/
 def hintToks (c : Str) : List (Nat × Str) := numberedTokens 1 (splitNL c)
 
